@@ -1,9 +1,9 @@
 import Driver.Proto
-import XsdataModel.Codegen.Circular
+import XsdataModel.Codegen.CircularRefs
 import XsdataModel.Py.TblEnv
 import XsdataModel.Names.TblUEnv
 import XsdataModel.Names.RenameClasses
-open Lean Proto Py Xs.Codegen Xs.Text Xs.Filters Xs.Rename
+open Lean Proto Py Xs.Codegen Xs.Codegen.Refs Xs.Text Xs.Filters Xs.Rename
 
 namespace OpsNames
 
